@@ -1,9 +1,13 @@
 package token
 
-import "time"
+import (
+	"sync"
+	"time"
+)
 
 // VerifReset forgets the in-memory token state (a process restart).
 func VerifReset(filename string) {
+	tokens.mu = sync.Mutex{}
 	tokens.filename = filename
 	tokens.fileSize = 0
 	tokens.modTime = time.Time{}
